@@ -246,6 +246,10 @@ fn boundary_cases(tier: Tier) -> Vec<Case> {
             }
         }
     }
+    // type functions stored in containers and reached through them
+    for call in ["t.size()", "t.kind()", "t[\"size\"]()", "u[0]()", "u[1]()", "w := t.size\nw()", "w := u[0]\nw()", "w := \"abc\"->len\nw()", "w := [1]->type\nprint(w())"] {
+        v.push(Case::new(format!("t := {{\"size\": \"abc\"->len, \"kind\": [1]->type}}\nu := [\"abc\"->len, 5->type]\nprint(\"pre\")\n{}\nprint(\"post\")\n", call), 3, format!("stored type function {}", call)));
+    }
     // multi-byte text around slots, out-of-range slices and indices on strings and lists
     for t in ["é", "€", "😀", "aé", "é€"] {
         for tmpl in ["$\"@${x}\"", "$\"${x}@\"", "$\"@${x}@${x}@\"", "$\"${x + \"@\"}@\"", "$\"@${\"@\"}\""] {
